@@ -87,7 +87,7 @@ def generate(rng, tier):
                               ["recurrence", "mode:" + md, "max:%d" % mx], fam="R"))
         elif r < 0.86:
             # --ref / ISODATETIMEREF and the keyword "ref"; pairs with --offset1/--offset2; pairs with a duration print format
-            k = rng.choice(["ref", "ref", "off12", "off12", "dfmt"])
+            k = rng.choice(["ref", "ref", "off12", "off12", "dfmt", "pfmt", "pfmt", "pfmt"])
             if k == "ref":
                 T, T2 = rand_text(rng, "G", big=False), rand_text(rng, "G", big=False)
                 off = rng.choice(OFFSETS)
@@ -102,6 +102,23 @@ def generate(rng, tier):
                 o1, o2 = rng.choice(OFFSETS), rng.choice(OFFSETS)
                 cases.append(Case(["cli_diff_off %s %s %s %s %s" % (md, enc(t1), enc(t2), enc(o1), enc(o2))],
                                   ["diff-offsets", "mode:" + md], fam="O"))
+            elif k == "pfmt":
+                # --parse-format (strptime notation), with and without --utc: the zone read by %z must be honoured and
+                # converted, and the result is printed in the same notation
+                y, mo, d = rng.choice([1999, 2000, 2020, 2024]), rng.randint(1, 12), rng.randint(1, 28)
+                hh, mm, ss = rng.randint(0, 23), rng.randint(0, 59), rng.randint(0, 59)
+                zs, zh, zm = rng.choice("+-"), rng.randint(0, 12), rng.choice([0, 0, 30, 45])
+                fmt, text = rng.choice([
+                    ("%Y%m%dT%H%M%z", "%04d%02d%02dT%02d%02d%s%02d%02d" % (y, mo, d, hh, mm, zs, zh, zm)),
+                    ("%Y-%m-%dT%H:%M:%S%z", "%04d-%02d-%02dT%02d:%02d:%02d%s%02d%02d" % (y, mo, d, hh, mm, ss, zs, zh, zm)),
+                    ("%d/%m/%Y %H:%M", "%02d/%02d/%04d %02d:%02d" % (d, mo, y, hh, mm)),
+                    ("%Y%m%d%H", "%04d%02d%02d%02d" % (y, mo, d, hh)),
+                    ("%FT%X%z", "%04d-%02d-%02dT%02d:%02d:%02d%s%02d%02d" % (y, mo, d, hh, mm, ss, zs, zh, zm)),
+                    ("%s", str(rng.randint(0, 2 * 10**9)))])
+                offs = [rng.choice(OFFSETS) for _ in range(rng.choice([0, 1, 1, 2]))]
+                utc = int(rng.random() < 0.6)
+                cases.append(Case(["cli_pf %s %d %s %s %d %s" % (md, utc, enc(fmt), enc(text), len(offs), " ".join(enc(o) for o in offs))],
+                                  ["parse-format", "mode:" + md, "utc:%d" % utc], fam="P"))
             else:
                 t1, t2 = rand_text(rng, md, big=False), rand_text(rng, md, big=False)
                 cases.append(Case(["cli_diff_fmt %s %s %s" % (md, enc(t1), enc(t2))], ["diff-format", "mode:" + md], fam="F"))
@@ -149,7 +166,7 @@ def model_lines(c):
 
 def corr(c):
     """model vs implementation on the command line's own output"""
-    if not c.model or c.meta["fam"] in ("E", "Q", "O", "F"):
+    if not c.model or c.meta["fam"] in ("E", "Q", "O", "F", "P"):
         return []
     m = c.model[0]
     cli = c.impl[0].split(" ; ", 1)[0].strip()
@@ -207,7 +224,7 @@ def judge(c):
             c.lines[0], dec(cli[4:]).strip() if cli.startswith("OUT ") else cli, back.split()[1])))
     if cli.startswith("EXC"):
         return res + [("violation", "%s -> %s" % (c.lines[0], cli))]
-    if fam in ("S", "R"):
+    if fam in ("S", "R", "P"):
         if lib.startswith("ERR"):
             if not cli.startswith("EXIT"):
                 res.append(("violation", "%s: the library refuses the input (%s) but the command line prints %s" % (c.lines[0], lib, cli)))
